@@ -37,6 +37,9 @@ def line_of(a):
                      hx(et0), hx(infl), hx(rain), hx(irr), tb(gs)])
 
 
+_FTE = rng_for("flagtypes", "evap")
+
+
 def info_of(a, tags):
     names = ["steps", "simoff", "tsc", "prof", "zmin", "zmax", "rew", "kex", "fwcc", "fwrelexp", "fevap", "caltype", "senescence",
              "method", "wetsurf", "mulches", "fmulch", "mulchpct", "dap", "wsurf", "evapz", "stage2", "th", "delayedcds", "gddcum",
@@ -162,7 +165,10 @@ def gen_chain(rng, length):
              np.float64(ccxact), np.float64(cc), premat, surf, wstage2, epot, et0, infl, rain, irr, gs)
         th_in = th.copy()
         try:
-            r = soil_evaporation(*a[:22], th, *a[23:])
+            aa = list(a)
+            for _k in (1, 15, 30, 38):      # sim_off_season, mulches, premat_senes, growing_season: flag objects of varying dynamic type
+                aa[_k] = flagtype(_FTE, aa[_k])
+            r = soil_evaporation(*aa[:22], th, *aa[23:])
             exp = toks_out(r)
         except RAISES as e:
             r = None
